@@ -392,6 +392,14 @@ class Raises(object):
             if isinstance(n, ast.UnaryOp) and isinstance(n.op, ast.Not):
                 v = ev(n.operand)
                 return None if v is None else (not v)
+            if isinstance(n, ast.IfExp):
+                c = ev(n.test)
+                if c is True:
+                    return ev(n.body)
+                if c is False:
+                    return ev(n.orelse)
+                a1, b1 = ev(n.body), ev(n.orelse)
+                return a1 if a1 is not None and a1 == b1 else None
             if isinstance(n, ast.BoolOp):
                 vals = [ev(v) for v in n.values]
                 if isinstance(n.op, ast.And):
@@ -604,16 +612,18 @@ class Raises(object):
         if key in self._dead_cache:
             return self._dead_cache[key]
         res = False
+        ax = self.an.alias_expander(f) if hasattr(self.an, "alias_expander") else None
         for test, pol, br in g.dominating_conditions(node):
             if pol not in ("true", "false"):
                 continue
-            names = names_in_text(norm(test))
+            ttext = norm(ax.expand(test, br)) if ax is not None else norm(test)
+            names = names_in_text(ttext)
             rel = [(t, v) for (t, v) in entry if names_in_text(t) & names]
             if not rel:
                 continue
             if not all(self._fact_still_valid(f, g, g.entry, br, t) for t, _ in rel):
                 continue
-            v = self._tri_eval(norm(test), list(rel), {})
+            v = self._tri_eval(ttext, list(rel), {})
             if v is not None and v != (pol == "true"):
                 res = True
                 break
@@ -717,6 +727,9 @@ class Raises(object):
                         if name in ("int", "float"):
                             # counted only when applied directly to caller supplied data (a bare parameter)
                             if not (a.args and isinstance(a.args[0], ast.Name) and a.args[0].id in f.params):
+                                continue
+                            # ... and not after the same text passed str.isdigit() (`t.isdigit() and int(t) >= 0`, or a dominating test)
+                            if self._after_isdigit(f, node, a):
                                 continue
                         out.append(RaiseSite(exc, (f.short, "%s(...)" % name), self.own_guards(f, node), (), node.lineno, f.module.path))
             # Thread(target=...) : exceptions of the target do not propagate to the caller
@@ -847,12 +860,35 @@ class Raises(object):
             return k.split(":", 1)[1]
         return k[4:] if k.startswith("Base") else k
 
+    def _after_isdigit(self, f, node, call):
+        arg = unparse(call.args[0])
+        want = "%s.isdigit()" % arg
+        for r in node.expr_roots():
+            for b in ast.walk(r):
+                if isinstance(b, ast.BoolOp) and isinstance(b.op, ast.And):
+                    seen = False
+                    for v in b.values:
+                        if unparse(v) == want:
+                            seen = True
+                        elif seen and any(y is call for y in ast.walk(v)):
+                            return True
+        return (want, True) in self.facts_at(f, node)
+
     def _alias_alternatives(self, f, node, a):
         """[(substitution {local: location text}, [(atom, polarity)] conditions of that binding)] for the first local in the
         receiver/arguments of the event that is bound (by several reaching definitions) to plain locations only."""
         from .dataflow import reaching_defs
         from .symtext import _is_location
         from .astutil import atoms_of as _atoms_of
+        cache = self.__dict__.setdefault("_alt_cache", {})
+        ckey = (f.qualname, node.id, id(a))
+        if ckey in cache:
+            return cache[ckey]
+        res = self._alias_alternatives_uncached(f, node, a, reaching_defs, _is_location, _atoms_of)
+        cache[ckey] = res
+        return res
+
+    def _alias_alternatives_uncached(self, f, node, a, reaching_defs, _is_location, _atoms_of):
         g = self.s.cfg(f)
         exprs = []
         if isinstance(a, ast.Call):
